@@ -28,7 +28,8 @@ Cplx(a, b) == Node("complex", "", <<Leaf("float", a), Leaf("float", b)>>)
 Elems(v) == {v.es[i] : i \in DOMAIN v.es}
 
 (* ------------------------------ value classes ------------------------------ *)
-IntC   == {"i_neg", "i_negone", "i_zero", "i_one", "i_pos", "i_huge", "i_neghuge", "i_digits"}
+IntC   == {"i_neg", "i_negone", "i_zero", "i_one", "i_pos", "i_huge", "i_neghuge", "i_digits", "i_negdigits"}
+DigitsC == {"i_digits", "i_negdigits"}     \* |value| >= 10^4300: no decimal string (sys.int_max_str_digits)
 BoolC  == {"b_true", "b_false"}
 NoneC  == {"n_none"}
 FloatC == {"f_nan", "f_inf", "f_ninf", "f_negzero", "f_zero", "f_neg", "f_pos", "f_negfrac", "f_frac", "f_integral",
@@ -51,12 +52,14 @@ ContainerKinds == SeqKinds \cup {"dict"}
 LeavesOf(kinds) == UNION {{Leaf(k, c) : c \in ClassesOf(k)} : k \in kinds}
 
 (* sign structure of the numeric classes: the representatives are symmetric *)
-Negative == {"i_neg", "i_negone", "i_neghuge", "f_neg", "f_negfrac", "f_ninf", "f_negmax"}
+Negative == {"i_neg", "i_negone", "i_neghuge", "i_negdigits", "f_neg", "f_negfrac", "f_ninf", "f_negmax"}
 AbsClass(c) == CASE c = "i_neg" -> "i_pos" [] c = "i_neghuge" -> "i_huge" [] c = "f_neg" -> "f_pos"
+                 [] c = "i_negdigits" -> "i_digits"
                  [] c = "i_negone" -> "i_one" [] c = "f_negfrac" -> "f_frac"
                  [] c = "f_ninf" -> "f_inf" [] c = "f_negmax" -> "f_max" [] c = "f_negzero" -> "f_zero"
                  [] OTHER -> c
 NegClass(c) == CASE c = "i_pos" -> "i_neg" [] c = "i_huge" -> "i_neghuge" [] c = "f_pos" -> "f_neg"
+                 [] c = "i_digits" -> "i_negdigits" [] c = "i_negdigits" -> "i_digits"
                  [] c = "i_one" -> "i_negone" [] c = "i_negone" -> "i_one"
                  [] c = "f_frac" -> "f_negfrac" [] c = "f_negfrac" -> "f_frac"
                  [] c = "f_inf" -> "f_ninf" [] c = "f_max" -> "f_negmax" [] c = "f_zero" -> "f_negzero"
@@ -107,10 +110,16 @@ Raise(exc) == Node("Raise", exc, <<>>)
 RECURSIVE HasRaise(_)
 HasRaise(s) == s.k = "Raise" \/ \E e \in Elems(s) : HasRaise(e)
 
-(* literalgen._int_to_cst / assertion_to_ast._value_to_cst(int) *)
+(* integer literal syntax: decimal, or with a base prefix (0x / 0b / 0o); the sign is never part of it *)
+IntSynKinds == {"Int", "HexInt", "BinInt", "OctInt"}
+
+(* literalgen._int_to_cst / assertion_to_ast._value_to_cst(int): the magnitude as a decimal literal,  *)
+(* in hexadecimal when it has no decimal string; a negative value is Neg(<literal of the magnitude>)  *)
 RenderInt(c, digitsDev) ==
-  IF c = "i_digits" /\ digitsDev THEN Raise("ValueError")
-  ELSE IF c \in Negative THEN Neg(Syn("Int", AbsClass(c))) ELSE Syn("Int", c)
+  IF c \in DigitsC /\ digitsDev THEN Raise("ValueError")
+  ELSE LET a == AbsClass(c)
+           lit == Syn(IF a \in DigitsC THEN "HexInt" ELSE "Int", a)
+       IN IF c \in Negative THEN Neg(lit) ELSE lit
 
 (* literalgen._float_to_cst *)
 RenderFloatL(c, D) ==
@@ -194,7 +203,9 @@ Build(k, vs) == IF \E i \in DOMAIN vs : IsErr(vs[i]) THEN FirstErr(vs) ELSE Node
 (* Eval in the namespace of the exported test file: builtins, the SUT's public names, the alias *)
 RECURSIVE Eval(_)
 Eval(s) ==
-  CASE s.k = "Int" -> Leaf("int", s.c)
+  CASE s.k = "Int" -> IF s.c \in DigitsC THEN Err("SyntaxError")      \* decimal literal beyond the digit limit
+                     ELSE Leaf("int", s.c)
+    [] s.k \in IntSynKinds \ {"Int"} -> Leaf("int", s.c)              \* power-of-two bases have no limit
     [] s.k = "Float" -> Leaf("float", s.c)
     [] s.k = "FloatCall" -> Leaf("float", s.c)
     [] s.k = "Neg" -> NegV(Eval(s.es[1]))
@@ -219,9 +230,80 @@ NotParsed == Node("-", "", <<>>)
 ParseFloat(s) == CASE s.k = "Float" -> Leaf("float", s.c)
                    [] s.k = "Neg" /\ s.es[1].k = "Float" -> NegV(Leaf("float", s.es[1].c))
                    [] OTHER -> NotParsed
-ParseInt(s) == CASE s.k = "Int" -> Leaf("int", s.c)
-                 [] s.k = "Neg" /\ s.es[1].k = "Int" -> NegV(Leaf("int", s.es[1].c))
+(* _parse_int: the literal may be written in any base, with or without a minus in front of it *)
+ParseInt(s) == CASE s.k \in IntSynKinds -> Leaf("int", s.c)
+                 [] s.k = "Neg" /\ s.es[1].k \in IntSynKinds -> NegV(Leaf("int", s.es[1].c))
                  [] OTHER -> NotParsed
+
+(* ------------------------------ integer literal tokens (parse-only inputs) ------------------------------ *)
+(* Literals a test case can carry without Pynguin having rendered them (seeded / parsed test cases):        *)
+(*   ["-" | "+"] (decinteger | hexinteger | bininteger | octinteger)   of the Python grammar.                 *)
+(* A token is [sg, base, ds, up]: ds = the digits after the base prefix, most significant first, US = "_";   *)
+(* up = prefix and digits in upper case.  Its value is stated here as sign and magnitude, the magnitude as    *)
+(* base-16 limbs (most significant first, no leading zero, <<>> = 0): TLC integers have 32 bits.              *)
+US == 16
+IntTok(sg, base, ds, up) == [sg |-> sg, base |-> base, ds |-> ds, up |-> up]
+NoTok == IntTok("", 0, <<>>, FALSE)
+TokWF(t) == LET n == Len(t.ds) IN
+  /\ t.sg \in {"", "-", "+"} /\ t.base \in {10, 16, 2, 8}
+  /\ n > 0 /\ \A i \in 1..n : t.ds[i] = US \/ t.ds[i] \in 0..(t.base - 1)
+  /\ t.ds[n] # US /\ \A i \in 1..(n - 1) : ~(t.ds[i] = US /\ t.ds[i + 1] = US)
+  /\ (t.base = 10 => /\ t.ds[1] # US                                       \* "_1" is a name
+                     /\ (t.ds[1] = 0 => \A i \in 1..n : t.ds[i] \in {0, US})  \* no leading zeros but in 0, 00, 0_0
+                     /\ ~t.up)
+
+Digs(ds) == SelectSeq(ds, LAMBDA d : d # US)               \* underscores do not contribute
+Strip0(s) == IF \A i \in DOMAIN s : s[i] = 0 THEN <<>>
+             ELSE LET f == CHOOSE i \in DOMAIN s : s[i] # 0 /\ \A j \in 1..(i - 1) : s[j] = 0
+                  IN SubSeq(s, f, Len(s))
+RevSeq(s) == [i \in 1..Len(s) |-> s[Len(s) + 1 - i]]
+(* any base: Horner on little-endian limbs; acc * m + c *)
+RECURSIVE MulAdd(_, _, _)
+MulAdd(acc, m, c) == IF acc = <<>> THEN (IF c = 0 THEN <<>> ELSE <<c % 16>> \o MulAdd(<<>>, m, c \div 16))
+                     ELSE LET t == Head(acc) * m + c IN <<t % 16>> \o MulAdd(Tail(acc), m, t \div 16)
+RECURSIVE Horner(_, _, _)
+Horner(d, m, acc) == IF d = <<>> THEN acc ELSE Horner(Tail(d), m, MulAdd(acc, m, Head(d)))
+HornerMag(d, base) == RevSeq(Horner(d, base, <<>>))
+(* bases 2, 8, 16 (w bits per digit): regrouping of bits, linear in the number of digits *)
+Pow2(k) == CASE k = 0 -> 1 [] k = 1 -> 2 [] k = 2 -> 4 [] OTHER -> 8
+BitAt(d, w, p) == LET i == Len(d) - (p \div w) IN IF i < 1 THEN 0 ELSE (d[i] \div Pow2(p % w)) % 2
+LimbAt(d, w, j) == BitAt(d, w, 4 * j) + 2 * BitAt(d, w, 4 * j + 1) + 4 * BitAt(d, w, 4 * j + 2) + 8 * BitAt(d, w, 4 * j + 3)
+RegroupMag(d, w) == LET nl == (Len(d) * w + 3) \div 4 IN Strip0([j \in 1..nl |-> LimbAt(d, w, nl - j)])
+BitsPerDigit(base) == CASE base = 2 -> 1 [] base = 8 -> 3 [] OTHER -> 4
+Mag(t) == IF t.base = 10 THEN HornerMag(Digs(t.ds), 10) ELSE RegroupMag(Digs(t.ds), BitsPerDigit(t.base))
+IntVal(t) == LET m == Mag(t) IN [sg |-> IF m = <<>> THEN 0 ELSE IF t.sg = "-" THEN -1 ELSE 1, hx |-> m]
+
+(* exact values [k, sg, hx, es]: int = sign and limbs; float = an integral float given like the int it equals *)
+(* (sg = -1 with hx = <<>> is -0.0; sg = 2: not integral / not finite / another type); containers as above.   *)
+XN(k, sg, hx, es) == [k |-> k, sg |-> sg, hx |-> hx, es |-> es]
+XC(k, es) == XN(k, 0, <<>>, es)
+RECURSIVE XSame(_, _)
+XSame(v, w) ==
+  /\ v.k = w.k /\ v.sg = w.sg /\ v.hx = w.hx
+  /\ IF v.k \in {"set", "dict"}
+       THEN /\ \A a \in Elems(v) : \E b \in Elems(w) : XSame(a, b)
+            /\ \A b \in Elems(w) : \E a \in Elems(v) : XSame(a, b)
+       ELSE /\ Len(v.es) = Len(w.es)
+            /\ \A i \in DOMAIN v.es : XSame(v.es[i], w.es[i])
+
+(* literal expressions built from the tokens: [k, tok, es], k in Int / Complex / List / Tuple / Set / Dict /   *)
+(* DictElem; complex(<int literal>, <int literal>) is what _parse_complex accepts besides float arguments     *)
+LN(k, tok, es) == [k |-> k, tok |-> tok, es |-> es]
+LInt(t) == LN("Int", t, <<>>)
+LCont(k, es) == LN(k, NoTok, es)
+AsFloat(x) == IF x.k = "int" THEN XN("float", x.sg, x.hx, <<>>) ELSE x        \* float(int), exact below 2^53
+RECURSIVE LitValue(_)
+LitValue(t) ==
+  CASE t.k = "Int" -> LET v == IntVal(t.tok) IN XN("int", v.sg, v.hx, <<>>)
+    [] t.k = "Complex" -> XC("complex", <<AsFloat(LitValue(t.es[1])), AsFloat(LitValue(t.es[2]))>>)
+    [] t.k = "List" -> XC("list", [i \in DOMAIN t.es |-> LitValue(t.es[i])])
+    [] t.k = "Tuple" -> XC("tuple", [i \in DOMAIN t.es |-> LitValue(t.es[i])])
+    [] t.k = "Set" -> XC("set", [i \in DOMAIN t.es |-> LitValue(t.es[i])])
+    [] t.k = "Dict" -> XC("dict", [i \in DOMAIN t.es |->
+                          XC("pair", <<LitValue(t.es[i].es[1]), LitValue(t.es[i].es[2])>>)])
+    [] OTHER -> XN("error", 2, <<>>, <<>>)
+LitType(t) == CASE t.k = "Int" -> "int" [] t.k = "Complex" -> "complex" [] t.k = "List" -> "list"
+                [] t.k = "Tuple" -> "tuple" [] t.k = "Set" -> "set" [] t.k = "Dict" -> "dict" [] OTHER -> "?"
 
 (* ------------------------------ which assertions exist (C20) ------------------------------ *)
 IsFloat(v) == v.k = "float" \/ (v.k = "obj" /\ v.c \in {"o_floatsub"})
